@@ -3,6 +3,7 @@ nestings (shared sub-stacks), event protocol of generated flows (gen_common)."""
 import random
 
 import common
+import coq_cases
 import gen_common
 import par_common
 
@@ -75,6 +76,8 @@ def run(chk):
         if bad:
             chk.violate("EmitterStack program `%s`: %s" % (prog, bad), {"program": prog, "real": rl[:3000], "model": ml})
             break
+    coq_cases.check_examples(chk, "emstack", "EmitterModel", [coq_cases.emstack_example(progs[i], model[i]) for i in range(0, min(len(progs), 200), 20)],
+                             "receivers computed by the extracted mk_stack/deliver re-computed inside Coq")
     chk.sample({"program": progs[0], "model_receivers": model[0]})
     chk.cov["correspondence"]["emitter_stack"] = {"kind": "real cff.EmitterStack vs extracted mk_stack/deliver on generated definitions with shared sub-stacks; 18 methods of 4 emitter kinds, payload identity",
                                                   "programs": len(progs), "definitions_per_program": shapes}
